@@ -138,6 +138,13 @@ func runScript(lines []string, drv *vh.Driver) scriptResult {
 		}
 	}
 	res.viol = w.led.viol
+	// an unmatched violation must never hide behind a known finding's: report those first (stable, deterministic)
+	sort.SliceStable(res.viol, func(i, j int) bool {
+		if (res.viol[i].matcher == "") != (res.viol[j].matcher == "") {
+			return res.viol[i].matcher == ""
+		}
+		return res.viol[i].what < res.viol[j].what
+	})
 	res.commits = w.led.nCommit
 	res.precs = w.led.nPrecommit
 	res.doubles = w.led.nDouble
